@@ -410,6 +410,16 @@ def compare(prop, spec, ops, impl, model):
             failures.append(dict(kind="oracle", idx=i, op=o.line, tag=o.tag,
                                  detail="%s byte slice(s) of the records formatted for the previous datagram (JSON / text / binary / key, as a transport holds them) changed while this datagram was processed" % hc[0].split()[1]))
             continue
+        cd = [l for l in ib if l.startswith("concurrent-differs ")]
+        if cd:
+            failures.append(dict(kind="oracle", idx=i, op=o.line, tag=o.tag,
+                                 detail="%s of the outputs produced by several goroutines at once differ from the output of the same call made alone" % cd[0].split()[1]))
+            continue
+        ic2 = [l for l in ib if l.startswith("input-changed ")]
+        if ic2:
+            failures.append(dict(kind="oracle", idx=i, op=o.line, tag=o.tag,
+                                 detail="the bytes of %s earlier datagram(s) (the receive buffers, still owned by the receiver) were changed while this datagram was processed" % ic2[0].split()[1]))
+            continue
         # C02: measured allocation (impl: `alloc <bytes> <len>`) and modelled cost (model: `cost <bytes> <widest>`)
         if o.line.startswith("allocpkt "):
             al = [l for l in ib if l.startswith("alloc ")]
